@@ -85,6 +85,29 @@ def g2(rng):
         "array": ("[a, b]", "[String; 2]", "[String; 2]"),
         "array_rest": ("[a, rest @ ..]", "[String; 3]", "[String; 3]"),
     }
+    # true type-form paths (`Path<T> {..}`, `Path::<T> {..}`, `Path<T>, (..)`): a separate arm of the macro
+    declg = "pub struct GB<T> { pub a: T, pub b: String }\npub struct GT<T>(pub T, pub String);\n"
+    gshapes = {
+        "generic_braced_type": ("GB<u8> {a, b}", "GB<u8>"),
+        "generic_braced_turbofish": ("GB::<u8> {a, b}", "GB<u8>"),
+        "generic_tuple_struct_type": ("GT<u8>, (a, b)", "GT<u8>"),
+        "generic_tuple_struct_turbofish": ("GT::<u8>, (a, b)", "GT<u8>"),
+        "generic_braced_type_param": ("GB<T> {a, b}", "GB<T>"),
+        "generic_tuple_struct_type_param": ("GT<T>, (a, b)", "GT<T>"),
+    }
+    for sname, (pat, ty) in gshapes.items():
+        gen = "<T>" if "<T>" in ty else ""
+        for refk in ("&", "&mut ", "&&", "&mut &mut "):
+            for annot in (False, True):
+                ann_inv = (": %s%s" % (refk, ty)) if annot else ""
+                ann_ctl = (": %s" % ty) if annot else ""
+                inv = HEAD + declg + "pub fn f%s(v: %s%s) { konst::destructure!{%s%s = v} }\n" % (gen, refk, ty, pat, ann_inv)
+                ctl = HEAD + declg + "pub fn f%s(v: %s) { konst::destructure!{%s%s = v} }\n" % (gen, ty, pat, ann_ctl)
+                out.append(("G2/%s/%s/%s" % (sname, refk.strip().replace(" ", ""), "annot" if annot else "noannot"), inv, ctl))
+        # a reference reached through a local binding (no annotation possible on the expression)
+        inv = HEAD + declg + "pub fn f%s(mut v: %s) { let r = &mut v; konst::destructure!{%s = r} }\n" % (gen, ty, pat)
+        ctl = HEAD + declg + "pub fn f%s(v: %s) { let r = v; konst::destructure!{%s = r} }\n" % (gen, ty, pat)
+        out.append(("G2/%s/local-&mut" % sname, inv, ctl))
     for sname, (pat, ty, _) in shapes.items():
         for refk in ("&", "&mut "):
             for annot in (False, True):
